@@ -246,6 +246,9 @@ CANARIES = [
     ('unsupported format forwarded', 'WMSGetMap', {'mapproxy.source.wms': [(
         "        if self.supported_formats and format not in self.supported_formats:\n            format = self.supported_formats[0]", "        pass")]},
      dict(srs_set='utm', query_srs='EPSG:25832', coverage=False, size=(256, 256), res=10.0, formats=['image/jpeg'], query_format='image/png')),
+    ('sub query sent with the client format', 'WMSGetMap', {'mapproxy.source.wms': [(
+        "        resp = self.client.retrieve(src_query, format)\n        return SubImageSource(", "        resp = self.client.retrieve(src_query, query.format)\n        return SubImageSource(")]},
+     dict(srs_set='utm', query_srs='EPSG:25832', coverage=True, size=(300, 200), res=10.0, formats=['image/jpeg'], query_format='image/png')),
     ('resolution gate inverted', 'WMSGetMap', {'mapproxy.grid': [(
         "            if max_res > x_res or max_res > y_res:\n                return False", "            if max_res < x_res or max_res < y_res:\n                return False")]},
      dict(srs_set='utm', query_srs='EPSG:25832', coverage=False, size=(256, 256), res=10.0, max_res=20.0)),
@@ -271,6 +274,7 @@ def obligations(tier, seed):
         dict(srs_set='utm', query_srs='EPSG:25832', coverage=True, size=(256, 256), res=10.0, min_res=100.0, max_res=5.0),
         dict(srs_set='utm', query_srs='EPSG:25832', coverage=False, size=(300, 200), res=10.0, formats=['image/jpeg', 'image/gif'], query_format='image/png'),
         dict(srs_set='utm', query_srs='EPSG:25832', coverage=True, size=(300, 200), res=10.0, formats=['image/png'], opt_format='image/tiff'),
+        dict(srs_set='utm', query_srs='EPSG:25832', coverage=True, size=(300, 200), res=10.0, formats=['image/jpeg'], query_format='image/png'),
     ]
     cfgs = base + extra if tier == 'thorough' else base[::2] + extra
     for i, c in enumerate(cfgs):
